@@ -48,7 +48,7 @@ W2=/tmp/confirm/$ID-run
 rm -rf "$W2"
 git -C /repo worktree add -q --detach "$W2" HEAD || exit 2
 if git -C "$W2" apply "$OUT/patch.diff"; then
-  export VERIF_OUT=/tmp/confirm/out-$ID
+  export VERIF_OUT=/tmp/confirm/out-$ID VERIF_ALT_TARGET=/tmp/confirm/alt-$ID
   mkdir -p $VERIF_OUT
   for c in $CHECKS; do
     FATFS_PATH="$W2" timeout 1200 /verif/check $c quick >"/tmp/confirm/$ID.$c.out" 2>&1; rc=$?
@@ -60,7 +60,7 @@ if git -C "$W2" apply "$OUT/patch.diff"; then
     fi
     rm -f "/tmp/confirm/$ID.$c.out"
   done
-  rm -rf $VERIF_OUT
+  rm -rf $VERIF_OUT $VERIF_ALT_TARGET
 else
   echo "patch does not apply to the scratch worktree"
 fi
